@@ -158,7 +158,7 @@ impl<'tcx> D<'tcx> {
     }
 
     fn block(&self, b: &hir::Block<'tcx>) -> J {
-        if matches!(b.rules, hir::BlockCheckMode::UnsafeBlock(_)) {
+        if matches!(b.rules, hir::BlockCheckMode::UnsafeBlock(hir::UnsafeSource::UserProvided)) {
             self.unsafe_blocks.set(self.unsafe_blocks.get() + 1);
         }
         let mut stmts = vec![];
@@ -180,7 +180,7 @@ impl<'tcx> D<'tcx> {
         }
         J::O(vec![
             ("k", s("Block")),
-            ("unsafe", if matches!(b.rules, hir::BlockCheckMode::UnsafeBlock(_)) { J::B(true) } else { J::Null }),
+            ("unsafe", if matches!(b.rules, hir::BlockCheckMode::UnsafeBlock(hir::UnsafeSource::UserProvided)) { J::B(true) } else { J::Null }),
             ("stmts", J::A(stmts)),
             ("expr", opt(b.expr.map(|e| self.expr(e)))),
             ("line", self.line(b.span)),
